@@ -223,6 +223,7 @@ def check(case, rec):
         text = export(t, case, d)
         r, how = importer(text, case, d)
         got = observe.snapshot(r)
+        observe.check_lookups(r, got, "loaded table")
     rec.cls("import:" + how)
 
     def bad(sub, msg):
